@@ -256,7 +256,7 @@ type Scenario struct {
 }
 
 // VClasses are the panic value classes, cycled through.
-var VClasses = []string{"str", "err", "rt", "struct"}
+var VClasses = []string{"str", "err", "rt", "struct", "pe"}
 
 // VClass returns the panic value class of a function in a scenario.
 // kind: t task, p predicate, q parallel task, s slice elem, S slice end,
@@ -268,7 +268,7 @@ func (sc *Scenario) VClass(kind byte, a, b int) string {
 	case 'p', 'S', 'M':
 		off = 1
 	}
-	return VClasses[(sc.PV+a+b+off)%4]
+	return VClasses[(sc.PV+a+b+off)%5]
 }
 
 // CancelIn returns k for cancel=in:<k>, or -1.
